@@ -370,3 +370,34 @@ def merge_copies_exactly_the_steps_before_the_restart_point(mask: int, at: int, 
     for c, n in want:
         assert dst[dbmod.getH5GroupName(c, n)].state == v + 7 * c + n, "unchanged"
     assert len(dst.groups) == len(want)
+
+
+# ----------------------------------------------------------------------------- widened hypotheses (assumption review)
+@lemma(gen={"mask": (0, 63), "at": (0, 5), "v": (0, 99)})
+def merge_copies_exactly_the_steps_before_any_restart_point(mask: int, at: int, v: int, extra: bool, labelled: bool):
+    """the lemma above assumes that the restart step is one of the source's steps (the other case was finding F22,
+    repaired since).  Here: ANY subset of the six steps - the empty one too - and ANY of the six as the restart point,
+    in the source or not; optionally the source also holds a labelled snapshot (cXXnYYerror) of the restart step
+    itself, which is not a step before the restart point either"""
+    mask = choose(mask, 0, 63)
+    at = choose(at, 0, 5)
+    present = [MERGE_GRID[k] for k in range(6) if (mask // 2 ** k) % 2 == 1]
+    startCycle, startNode = MERGE_GRID[at]
+    src = new(SrcFile, groups={}, attrs={}, flushed=0, isopen=True)
+    if labelled:
+        src.create_group(dbmod.getH5GroupName(startCycle, startNode, "error")).state = v - 1
+    for k, (c, n) in enumerate(reversed(present)):
+        g = src.create_group(dbmod.getH5GroupName(c, n))
+        g.state = v + 7 * c + n
+    if extra:
+        src.create_group("inputs")
+    dst = new(DstFile, groups={}, attrs={}, flushed=0, isopen=True)
+    inputDB = new(Database, h5db=src, _versionMinor=4, _versionMajor=3)
+    db = new(Database, h5db=dst)
+    db.mergeHistory(inputDB, startCycle, startNode)
+    want = [(c, n) for (c, n) in present if (c, n) < (startCycle, startNode)]
+    assert list(db.genTimeSteps()) == want, "exactly the steps before the restart point, nothing else"
+    for c, n in want:
+        assert dst[dbmod.getH5GroupName(c, n)].state == v + 7 * c + n, "unchanged"
+    assert len(dst.groups) == len(want)
+    assert len(src.groups) == len(present) + (1 if extra else 0) + (1 if labelled else 0), "the source is not changed"
